@@ -76,6 +76,8 @@ def mol(key):
             m = M(XYZ_H4, q=0, spin=0, basis="sto-3g", frozen_orbitals=[0])
         elif key == "H4+":
             m = M(XYZ_H4, q=1, spin=1, basis="sto-3g")
+        elif key == "H4t":      # triplet H4
+            m = M(XYZ_H4, q=0, spin=2, basis="sto-3g")
         else:
             raise KeyError(key)
         m.solver = _CachedIntegrals(m.solver, m)
